@@ -10,8 +10,11 @@ from collections import defaultdict, deque
 TRACING_MACROS = {
     "trace", "debug", "info", "warn", "error", "event", "span", "trace_span", "debug_span",
     "info_span", "warn_span", "error_span", "debug_assert", "debug_assert_eq", "debug_assert_ne",
-    "log", "enabled", "instrument",
+    "log", "enabled",
 }
+# `#[tracing::instrument]` is NOT in the list: its expansion contains the function's own body (wrapped in an inner
+# async block / closure that is then awaited / called); only the span construction inside it, which goes through the
+# `span!` macros above, is effect-free.
 
 
 class AnchorMissing(Exception):
